@@ -1034,6 +1034,19 @@ class Run:
             for i, f in enumerate(d.fields):
                 if f.sub is not None:
                     ctx.count(f"nested-form:{form}-holds-{d.nform[form][i]}")
+                    inner = d.nform[form][i]
+                    if form == "C" and inner == "I":
+                        B(ctx, "nesting:compiled-holds-interpreted")
+                    if form == "I" and inner == "C":
+                        B(ctx, "nesting:interpreted-holds-compiled")
+                    if form == "D" and inner != "D":
+                        B(ctx, "nesting:dataclass-holds-other")
+        B(ctx, "compile:with-defaults" if d.defaults else "compile:without-defaults")
+        for n_, k_ in d.fu.items():
+            if n_ in d.derived and "D" in forms:
+                B(ctx, "derived:" + k_)
+            elif k_ in ("tuple", "set", "sortedtuple") and "D" in forms:
+                B(ctx, "derived:user-rule-kept")
         for n_, k_ in d.fp.items():
             ctx.count(f"hook:fix_pack:{k_}")
         for n_, k_ in d.fu.items():
@@ -1095,6 +1108,7 @@ class Run:
                 ctx.count("gen:shape-not-recognised")
                 continue
             ctx.count("gen:compared")
+            B(ctx, "compile:text-compared")
             line = " ".join(["gen", form] + toks[form] + ["[]", "[]"])
             self.ask(line, lambda rep: rep, gs, f"generated code of form {form}", {**rep_d, "form": form})
             ctx.case(("gen", d.shape(), form), nontrivial)
@@ -1126,6 +1140,7 @@ class Run:
                     real = ("ok", attrs_of(r[1])) if r[0] == "ok" else r
                     outcomes[form] = real
                     ctx.count(f"init-outcome:{form}:{real[0] if real[0] == 'ok' else real[1]}")
+                    self.init_branches(d, form, kind, posn, kwn, real)
                     line = " ".join(["init", form] + toks[form] + ["[" + ",".join(pos_atoms) + "]",
                                                                    "[" + ",".join(f"{k}={a}" for k, a in kw_atoms) + "]"])
                     te = TermEval(d, env)
@@ -1174,6 +1189,15 @@ class Run:
                 real = ("ok", tuple((t[0], tuple(canon(x) for x in t[1:])) for t in r[1])) if r[0] == "ok" else r
                 pls[form] = real
                 ctx.count(f"pack-outcome:{form}:{real[0] if real[0] == 'ok' else real[1]}")
+                if form != "D":
+                    if real[0] == "ok":
+                        B(ctx, "pack:hooked" if d.fp else "pack:plain")
+                        for f in d.fields:
+                            B(ctx, {"bits": "pack:bits", "nested": "pack:payload", "nlist": "pack:payload-list"}.get(f.kind, "pack:plain"))
+                    elif drop is not None and real[1] == "AttributeError":
+                        B(ctx, "pack:AttributeError")
+                    if none_field is not None:
+                        B(ctx, "pack:none-in-hooked-field")
                 line = " ".join(["pack", form] + toks[form] + ["[]", "[" + ",".join(
                     f"{n}=v{j}" for j, n in enumerate(d.names) if n != drop) + "]"])
                 self.ask(line, TermEval(d, env).packlist, real, f"to_pack_list of form {form}", {**rep_d, "form": form})
@@ -1185,6 +1209,7 @@ class Run:
                 if rb[0] == "ok" and any(f.sub is not None for f in d.fields):
                     rc = attempt(lambda: compose_bytes(self.ser, obj))
                     ctx.count("bytes:compositional-" + ("same" if rc == rb else "differs"))
+                    B(ctx, "nesting:bytes-compositional")
                     if rc != rb:
                         ctx.oracle_fail("pack_serializable:nesting-structure", "bytes of a nested instance are not "
                                         "len16 + bytes(inner) / count8 + items as modelled", {**rep_d, "form": form})
@@ -1197,6 +1222,8 @@ class Run:
                 if rb[0] == "ok":
                     rd = attempt(lambda: self.ser.unpack_serializable(cls, b"\xaa\xbb" + rb[1], 2))
                     decs[form] = ("ok", (canon(rd[1][0]), rd[1][1])) if rd[0] == "ok" else rd
+                    if rd[0] == "ok" and any(f.sub is not None for f in d.fields):
+                        B(ctx, "nesting:decode-through-nested")
                     if rd[0] == "ok" and type(rd[1][0]) is not cls:
                         ctx.oracle_fail("unpack_serializable:decoded-class", f"decoding with the {form} form of a class "
                                         f"returns an instance of another class ({type(rd[1][0]).__name__})",
@@ -1223,6 +1250,13 @@ class Run:
                 realf = ("ok", attrs_of(rf[1])) if rf[0] == "ok" else rf
                 fuls[form] = realf
                 ctx.count(f"unpack-outcome:{form}:{raw_mode}:{realf[0] if realf[0] == 'ok' else realf[1]}")
+                if form != "D":
+                    if raw_mode == "wire" and realf[0] == "ok":
+                        B(ctx, "unpack:hooked" if d.fu else "unpack:plain")
+                    if raw_mode == "none" and any(a == "N" and n in d.fu for a, n in zip(atoms, d.names)):
+                        B(ctx, "unpack:none-entry-on-hooked")
+                    if raw_mode in ("short", "long"):
+                        B(ctx, "unpack:" + raw_mode)
                 line = " ".join(["unpack", form] + toks[form] + ["[" + ",".join(atoms) + "]", "[]"])
                 unguarded = None
                 if raw_mode == "none" and form != "I" and len(atoms) == len(d.names) and \
@@ -1258,6 +1292,48 @@ class Run:
             else:
                 ctx.count("unpack:outside-hypotheses")
         self.flush()
+
+    def init_branches(self, d, form, kind, posn, kwn, real):
+        ctx, ok = self.ctx, real[0] == "ok"
+        if form == "I":
+            if d.user_init is None:
+                if ok and posn:
+                    B(ctx, "vpInit:positional")
+                if ok and kwn:
+                    B(ctx, "vpInit:kwargs-pop")
+                if not ok and kind == "bad:missing":
+                    B(ctx, "vpInit:pop-KeyError")
+                if not ok and kind.startswith("bad:surplus"):
+                    B(ctx, "vpInit:surplus-KeyError")
+                if not ok and kind in ("bad:unknown", "bad:duplicate"):
+                    B(ctx, "vpInit:leftover-KeyError")
+                if ok and any(f.kind == "bits" for f in d.fields):
+                    B(ctx, "vpInit:bits-8-names")
+                if d.super_n and ok and posn:
+                    B(ctx, "superFwd:positional")
+                if d.super_n and ok and len(posn) < d.super_n:
+                    B(ctx, "superFwd:kwargs-pop")
+            else:
+                if ok and "+defaults" in kind:
+                    B(ctx, "userInit:default-used")
+                if not ok and kind == "bad:unknown" and d.user_init == "kw":
+                    B(ctx, "userInit:varkw-leftover")
+                if not ok and kind == "bad:unknown" and d.user_init == "nokw":
+                    B(ctx, "userInit:nokw-unknown-TypeError")
+                if not ok and d.kwonly and len(posn) > len(d.names) - d.kwonly:
+                    B(ctx, "userInit:keyword-only-guard")
+        elif form == "C":
+            if ok and posn:
+                B(ctx, "pyBind:positional")
+            if ok and kwn:
+                B(ctx, "pyBind:keyword")
+            if ok and "+defaults" in kind:
+                B(ctx, "pyBind:default")
+            if not ok:
+                for k, b in (("bad:surplus", "surplus-TypeError"), ("bad:duplicate", "duplicate-TypeError"),
+                             ("bad:missing", "missing-TypeError"), ("bad:unknown", "unknown-TypeError")):
+                    if kind.startswith(k):
+                        B(ctx, "pyBind:" + b)
 
     def compare_forms(self, sig, outcomes, rep_d, extra, what, ref_form="I"):
         """oracle: every compiled/dataclass outcome equals the interpreted one (errors are equal as errors)"""
@@ -1665,9 +1741,15 @@ def reannotate(run: "Run", n_cases: int):
     pre = {"list": "co:", "tuple": "cot:", "set": "cos:"}
     for case in range(n_cases):
         levels = 3 if case % 3 == 2 else 2
-        ks = [rng.choice(["list", "tuple", "set", "tuple", "set"])]
-        while len(ks) < levels:
-            ks.append(rng.choice([k for k in ("list", "tuple", "set", "bytes", "str") if k != ks[-1]]))
+        if levels == 2:
+            # deterministic schedule: every (root container, re-annotation) pair, each in every instantiation order
+            pairs = [(a, b) for a in ("tuple", "set", "list") for b in ("list", "tuple", "set", "bytes", "str") if a != b]
+            two = case - case // 3          # index among the two-level cases
+            ks = list(pairs[two % len(pairs)])
+        else:
+            ks = [rng.choice(["list", "tuple", "set", "tuple", "set"])]
+            while len(ks) < levels:
+                ks.append(rng.choice([k for k in ("list", "tuple", "set", "bytes", "str") if k != ks[-1]]))
         elem, afmt = rng.choice([(int, "arrayH-q"), (bool, "arrayH-?"), (float, "arrayH-d")])
         scalar = {"bytes": (bytes, "varlenH", "bytes", b"abc"), "str": (str, "varlenHutf8", "str", "abc")}
 
@@ -1685,7 +1767,7 @@ def reannotate(run: "Run", n_cases: int):
                 return scalar[k][3]
             return [elem(1), elem(0)] if wire else kinds[k]([elem(1), elem(0)])
         orders = {2: [[0, 1], [1, 0], [1], [0, 1, 0]], 3: [[0, 1, 2], [2, 1, 0], [2], [0, 2, 1], [1, 2]]}[levels]
-        evs = orders[(case // 3) % len(orders)]
+        evs = orders[((case - case // 3) // 12) % len(orders)] if levels == 2 else orders[(case // 3) % len(orders)]
         uid = next(_uid)
         extra = rng.random() < 0.5
         classes = [dataclasses.make_dataclass(f"R{uid}_0", [("a", int), ("t", ann_of(ks[0]))], bases=(DataClassPayload,))]
@@ -1714,6 +1796,12 @@ def reannotate(run: "Run", n_cases: int):
 
         defs_refs = [plain(ks[lv], extra and lv >= 1, f"RR{uid}_{lv}") for lv in range(levels)]
         ctx.count(f"reannotate:{'->'.join(ks)}:order={''.join(map(str, evs))}")
+        for lv in range(1, levels):
+            if ks[lv - 1] in ("tuple", "set") and lv in evs and (lv - 1) in evs[:evs.index(lv)]:
+                if ks[lv] == "list":
+                    B(ctx, "derived:keep-container")
+                elif ks[lv] in ("bytes", "str"):
+                    B(ctx, "derived:non-container")
         rep = {"reannotate": {"kinds": ks, "element": elem.__name__, "extra_field": extra, "events": evs}}
         for lv in evs:
             vals = [1, value_of(ks[lv])] + ([9] if (lv >= 1 and extra) else [])
@@ -1799,6 +1887,8 @@ def inheritance(run: "Run", n_cases: int):
                    "interleaved": [0, levels - 1, 0] + list(range(levels)), "only-child": [levels - 1],
                    "only-parent": [0], "twice": list(range(levels)) + list(range(levels))}[order]
             ctx.count(f"inherit:dataclass:{order}:levels={levels}")
+            if order in ("parent-first", "child-first"):
+                B(ctx, "chain:" + order)
             ctx.count(f"inherit:msg_id:{'override' if override else ('base' if base_id is not None else 'none')}")
             rep = {"chain": {"definition": defn_replay(full), "cuts": cuts, "events": evs, "order": order,
                              "base_msg_id": base_id, "msg_id_override": {str(k): v for k, v in override.items()}}}
@@ -1824,6 +1914,7 @@ def inheritance(run: "Run", n_cases: int):
                     "class-level format_list/names along an inheritance chain", rep)
             for lv in range(levels):
                 if lv in done:
+                    B(ctx, "nearest:self")
                     if ok:
                         against_reference(run, "dataclass.inherit", classes[lv], refs[lv], defs[lv], {**rep, "class": lv}, ids[lv])
                 else:
@@ -1840,6 +1931,7 @@ def inheritance(run: "Run", n_cases: int):
                     ctx.count(f"inherit:decode-before-instance:{'same' if ca == cb else 'differs'}")
                     ctx.case(("inherit-decode-first", order, lv), True)
                     anc = [j for j in conv if j < lv]
+                    B(ctx, "nearest:ancestor" if anc else "nearest:none")
                     if not anc:
                         conv.add(lv)    # nothing was unpacked and cls() was called: __new__ has converted this class
                     if anc:
@@ -2012,6 +2104,8 @@ def dataclass_options(run: "Run", n: int):
         ra = ("ok", attrs_of(a[1])) if a[0] == "ok" else a
         rb = ("ok", attrs_of(b[1])) if b[0] == "ok" else b
         ctx.count(f"dataclass-options:{kind}:{ra[0] if ra[0] == 'ok' else ra[1]}")
+        if ra[0] == "err":
+            B(ctx, "compile:refused")
         ctx.case(("dataclass-options", kind, fmt), True)
         if ra == rb:
             continue
@@ -2051,6 +2145,20 @@ def type_map_queries(run: Run):
         real = "ok " + canon_fmt(r[1]) if r[0] == "ok" else "err:" + r[1]
         tok = key.split("#")[0]
         ctx.count("type_map:" + ("ok" if r[0] == "ok" else r[1]))
+        if r[0] != "ok":
+            B(ctx, "typeMap:" + r[1])
+        elif tok in PY_TYPES:
+            B(ctx, "typeMap:native")
+        elif tok.startswith("tv:"):
+            B(ctx, "typeMap:tvar")
+        elif tok.startswith("lit:"):
+            B(ctx, "typeMap:lit")
+        elif tok.startswith("se:"):
+            B(ctx, "typeMap:ser")
+        elif tok.startswith("cs:") or ":se:" in tok:
+            B(ctx, "typeMap:coll-ser")
+        elif tok.startswith(("co:", "cot:", "cos:")):
+            B(ctx, "typeMap:coll-native")
         if key.endswith("#pair"):
             # heterogeneous tuple[T, U]: today only T counts; rejecting such an annotation would be just as good, so
             # this is recorded, compared with the model only when it is accepted, and never an oracle matter
@@ -2110,8 +2218,66 @@ def checked(r: Run, d: Defn, top=True):
         r.ctx.count(f"harness:definition-aborted:{exc_name(e)}")
         r.lines, r.checks = [], []
         r.aborted += 1
-        if r.aborted > 5:
-            raise
+        if r.aborted > 5 and not r.ctx.failures and not r.ctx.disagreements:
+            raise       # nothing reported so far: this is a harness problem, not a consequence of a reported failure
+
+
+# ---------------------------------------------------------------------------------------------------------------
+# branch classes of the hand-written model definitions that every run has to reach (design.d/C20.md section 9): a run
+# in which one of them stays at zero has silently lost coverage and ends with exit 2, not with a pass
+
+REQUIRED_BRANCHES = [
+    # VariablePayload.__init__ (initSlot / vpInit / superFwd / interpInit)
+    "vpInit:positional", "vpInit:kwargs-pop", "vpInit:pop-KeyError", "vpInit:surplus-KeyError", "vpInit:leftover-KeyError",
+    "vpInit:bits-8-names", "superFwd:positional", "superFwd:kwargs-pop", "userInit:default-used",
+    "userInit:varkw-leftover", "userInit:nokw-unknown-TypeError", "userInit:keyword-only-guard",
+    # CPython binding of the generated __init__ (pyBind / bindParams)
+    "pyBind:positional", "pyBind:keyword", "pyBind:default", "pyBind:surplus-TypeError", "pyBind:duplicate-TypeError",
+    "pyBind:missing-TypeError", "pyBind:unknown-TypeError",
+    # to_pack_list (fixPackI / packSlots / packFmts / runPack*)
+    "pack:hooked", "pack:plain", "pack:bits", "pack:payload", "pack:payload-list", "pack:AttributeError",
+    "pack:none-in-hooked-field",
+    # from_unpack_list (unpackFix / runUArgs / runUnpack)
+    "unpack:hooked", "unpack:plain", "unpack:none-entry-on-hooked", "unpack:short", "unpack:long",
+    # vp_compile (compileInit / spliceParams / defaultsOrdered)
+    "compile:with-defaults", "compile:without-defaults", "compile:refused", "compile:text-compared",
+    # type_map (typeMap)
+    "typeMap:native", "typeMap:tvar", "typeMap:coll-native", "typeMap:coll-ser", "typeMap:lit", "typeMap:ser",
+    "typeMap:NotImplementedError", "typeMap:TypeError",
+    # convert_to_payload (derivedUnpack)
+    "derived:tuple", "derived:set", "derived:user-rule-kept", "derived:keep-container", "derived:non-container",
+    # class-state machine (nearest / newStep / decodeStep)
+    "nearest:self", "nearest:ancestor", "nearest:none", "chain:parent-first", "chain:child-first",
+    # nesting (packerWith / bytesOf / decodeObj)
+    "nesting:compiled-holds-interpreted", "nesting:interpreted-holds-compiled", "nesting:dataclass-holds-other",
+    "nesting:bytes-compositional", "nesting:decode-through-nested",
+]
+
+
+def B(ctx, name):
+    ctx.count("branch:" + name)
+
+
+def coverage_gate(ctx: Ctx):
+    """exit 2 when a required branch class was not reached - unless the run already has something to report"""
+    import vlib
+    known = {k.get("signature") for k in vlib.load_known_findings() if k.get("property") == PROPERTY and k.get("status") == "known"}
+    if ctx.disagreements or ctx.broken or any(f["signature"] not in known for f in ctx.failures):
+        return
+    required = list(REQUIRED_BRANCHES)
+    if (ctx.extra.get("translator") or {}).get("compiled_battery_text_not_recognised", 0):
+        # the generators emit text outside the parser's subset (a restyled generator): the structural tie - the `gen`
+        # lines and theorem generated_code_matches_model - is vacuous in this run; behaviour is still compared.  Said
+        # loudly in the evidence and on stderr instead of failing a property-neutral change
+        required.remove("compile:text-compared")
+        ctx.extra["structural_tie"] = "LOST: emitted text of _compile_* is outside the subset tools/gen_c20.parse_generated reads"
+        print("C20: structural tie to the generated text is lost (text outside the parser's subset); behavioural checks only",
+              file=sys.stderr)
+    missing = [b for b in required if ctx.counts.get("branch:" + b, 0) == 0]
+    ctx.extra["required_branches"] = {"listed": len(REQUIRED_BRANCHES), "missing": missing}
+    if missing:
+        raise vlib.InfraError("coverage lost: branch classes never reached in this run: " + ", ".join(missing))
+
 
 
 def generate(ctx: Ctx):
@@ -2124,6 +2290,7 @@ def run(ctx: Ctx):
     if ctx.replay_input is not None:
         return replay(ctx, ctx.replay_input)
     run_all(ctx, ctx.scale(300, 6000), ctx.model_ok, ctx.scale(3, 4), ctx.scale(4, 40))
+    coverage_gate(ctx)
 
 
 def search(ctx: Ctx, reason: str):
